@@ -73,6 +73,8 @@ InvStk  == StackInv(pol, st)
 Inv06   == I06(pol, inp, out)
 Inv08   == I08(pol, inp, out)
 Inv09   == I09(pol, inp, out)
+Inv07   == I07(pol, inp, out)
+Inv20   == I20(pol, out)
 
 \* step forms (checked on every transition, so they also hold under the VIEW)
 Fresh(o, o2) == SubSeq(o2, Len(o) + 1, Len(o2))
